@@ -28,7 +28,7 @@ SPECS["C03"] = {
     "outside": ["datagrams longer than the byte bound", "zlib/lz4 decoders and proto.Unmarshal", "net/http panic isolation", "scheduler starvation"],
     "assumptions": STUBS_COMMON + [PF_STUB],
     "jobs": [
-        {"pkg": "./internal/lexer", "harness": "internal/lexer", "mode": "machine", "nonterm_is_violation": True, "max_steps": 400000,
+        {"pkg": "./internal/lexer", "harness": "internal/lexer", "mode": "machine", "nonterm_is_violation": True, "max_steps": 200000, "max_decisions": 300,
          "entries": {"quick": ["VerifC03_All1", "VerifC03_All2", "VerifC03_All3", "VerifC03_All4", "VerifC03_All5",
                                "VerifC03_EventBody4", "VerifC03_EventBody8", "VerifC03_Twin"],
                      "thorough": ["VerifC03_All1", "VerifC03_All2", "VerifC03_All3", "VerifC03_All4", "VerifC03_All5", "VerifC03_All6",
@@ -55,7 +55,7 @@ SPECS["C02"] = {
                 "empty attribute fields (||) - not part of the documented form"],
     "assumptions": STUBS_COMMON + [PF_STUB],
     "jobs": [
-        {"pkg": "./internal/lexer", "harness": "internal/lexer", "mode": "machine", "nonterm_is_violation": True, "max_steps": 400000,
+        {"pkg": "./internal/lexer", "harness": "internal/lexer", "mode": "machine", "nonterm_is_violation": True, "max_steps": 200000, "max_decisions": 300,
          "entries": {"quick": ["VerifC02_All1", "VerifC02_All2", "VerifC02_All3", "VerifC02_All4", "VerifC02_All5", "VerifC02_All6", "VerifC02_AllNs5",
                                "VerifC02_Gram_1_1_0", "VerifC02_Gram_2_1_0", "VerifC02_Gram_2_2_0",
                                "VerifC02_Gram_1_1_1x1", "VerifC02_Gram_1_1_1x2", "VerifC02_Gram_1_1_1x3",
@@ -92,9 +92,9 @@ SPECS["C06"] = {
     "assumptions": STUBS_COMMON + [MATH_NOTE],
     "jobs": [
         {"pkg": ".", "harness": "root", "mode": "math",
-         "entries": {"quick": ["VerifC06_Split_1_1_0_3", "VerifC06_Split_2_1_1_3", "VerifC06_Split_3_1_1_3", "VerifC06_Split_2_0_0_2", "VerifC06_SplitMixed_2_1_1_3", "VerifC06_Twin"],
+         "entries": {"quick": ["VerifC06_Split_1_1_0_3", "VerifC06_Split_2_1_1_3", "VerifC06_Split_3_1_1_3", "VerifC06_Split_2_0_0_2", "VerifC06_SplitAnyName_2_3", "VerifC06_SplitAnyName_3_2", "VerifC06_SplitMixed_2_1_1_3", "VerifC06_Twin"],
                      "thorough": ["VerifC06_Split_1_1_0_3", "VerifC06_Split_2_1_1_3", "VerifC06_Split_2_2_1_4", "VerifC06_Split_3_1_1_3", "VerifC06_Split_3_2_2_6",
-                                  "VerifC06_Split_2_0_0_2", "VerifC06_Split_4_1_1_4", "VerifC06_SplitMixed_2_1_1_3", "VerifC06_SplitMixed_3_1_0_2", "VerifC06_Twin"]},
+                                  "VerifC06_Split_2_0_0_2", "VerifC06_SplitAnyName_2_3", "VerifC06_SplitAnyName_3_2", "VerifC06_Split_4_1_1_4", "VerifC06_SplitMixed_2_1_1_3", "VerifC06_SplitMixed_3_1_0_2", "VerifC06_Twin"]},
          "reach": {"*": ["split", "determinism"]},
          "twin": {"VerifC06_Twin": True},
          "limits": {"quick": {"timeout": "600s"}, "thorough": {"timeout": "3000s"}}},
@@ -205,9 +205,11 @@ SPECS["C05"] = {
     "assumptions": STUBS_COMMON + [PF_STUB, TIME_MODEL, "rate.Limiter.Allow returns false (bad-line logging is not the subject)"],
     "jobs": [
         {"pkg": "./pkg/statsd", "harness": "pkg/statsd", "mode": "machine",
-         "entries": {"quick": ["VerifC05_Concat_S_S", "VerifC05_Concat_S_3", "VerifC05_Concat_2_S", "VerifC05_Frame_4_2", "VerifC05_Frame_5_2", "VerifC05_LastGauge", "VerifC05_IgnoreHost_1_1", "VerifC05_IgnoreHost_2_1",
+         "entries": {"quick": ["VerifC05_Concat_S_S", "VerifC05_Concat_S_3", "VerifC05_Concat_2_S", "VerifC05_Concat_MT_ET", "VerifC05_Concat_ET_MT", "VerifC05_Concat_ET_ET",
+                               "VerifC05_Concat_H_MT", "VerifC05_Concat_H_S", "VerifC05_Concat_MT_H", "VerifC05_Frame_4_2", "VerifC05_Frame_5_2", "VerifC05_LastGauge", "VerifC05_IgnoreHost_1_1", "VerifC05_IgnoreHost_2_1",
                                "VerifC05_IgnoreHost_3_1", "VerifC05_Alias1", "VerifC05_Alias2", "VerifC05_ConcatTwin"],
-                     "thorough": ["VerifC05_Concat_S_S", "VerifC05_Concat_S_3", "VerifC05_Concat_2_S", "VerifC05_Concat_3_3", "VerifC05_Concat_4_3", "VerifC05_Concat_3_4", "VerifC05_Frame_4_2", "VerifC05_Frame_5_2", "VerifC05_Frame_6_2",
+                     "thorough": ["VerifC05_Concat_S_S", "VerifC05_Concat_S_3", "VerifC05_Concat_2_S", "VerifC05_Concat_MT_ET", "VerifC05_Concat_ET_MT", "VerifC05_Concat_ET_ET",
+                                  "VerifC05_Concat_H_MT", "VerifC05_Concat_H_S", "VerifC05_Concat_MT_H", "VerifC05_Concat_3_3", "VerifC05_Concat_4_3", "VerifC05_Concat_3_4", "VerifC05_Frame_4_2", "VerifC05_Frame_5_2", "VerifC05_Frame_6_2",
                                   "VerifC05_LastGauge", "VerifC05_IgnoreHost_1_1", "VerifC05_IgnoreHost_2_1", "VerifC05_IgnoreHost_3_1", "VerifC05_IgnoreHost_3_2",
                                   "VerifC05_Alias1", "VerifC05_Alias2", "VerifC05_ConcatTwin"]},
          "reach": {"VerifC05_Concat_S_S": ["bad-and-good", "two-metrics"], "VerifC05_Frame_4_2": ["done"], "VerifC05_LastGauge": ["gauge"],
